@@ -23,7 +23,7 @@ use serde_json::json;
 use starknet_types_core::felt::Felt;
 
 use crate::core::{CheckDef, Ctx, Tier, guarded};
-use crate::exec::{Dbs, input_vectors, snippets, value_json};
+use crate::exec::{Dbs, args_str, input_vectors, snippets, value_json};
 use crate::pipe::*;
 
 /// The output cells of a hint (the values the prover supplies), in a fixed order.
@@ -158,8 +158,8 @@ fn fixed_ec_point() -> (Felt, Felt) {
     )
 }
 
-fn run_dev(c: &Compiled, f: &Function, args: &[Felt], gas: usize, deviate: Vec<(usize, Vec<MaybeRelocatable>)>, step_cap: usize) -> Result<(Result<RunResultStarknet, String>, Vec<(String, Vec<MaybeRelocatable>)>), String> {
-    let a: Vec<Arg> = args.iter().map(|x| Arg::Value(*x)).collect();
+fn run_dev(c: &Compiled, f: &Function, args: &[Arg], gas: usize, deviate: Vec<(usize, Vec<MaybeRelocatable>)>, step_cap: usize) -> Result<(Result<RunResultStarknet, String>, Vec<(String, Vec<MaybeRelocatable>)>), String> {
+    let a: Vec<Arg> = args.to_vec();
     let (mut hp0, ctx) = c.runner.prepare_starknet_context(f, a, Some(gas), StarknetState::default()).map_err(|e| format!("{e}"))?;
     // bound the run: a deviated flag may send the program into a long loop
     hp0.run_resources = RunResources::new(step_cap);
@@ -269,7 +269,7 @@ pub fn debug_time(code: &str, arg: i64) {
     let prog = dbs.compile(&cfg, code).unwrap();
     let c = make_runner(prog.clone(), &cfg).unwrap();
     let f = prog.funcs.iter().find(|f| fname(f) == "test::f").unwrap();
-    let args = vec![Felt::from(arg)];
+    let args = vec![Arg::Value(Felt::from(arg))];
     let t = std::time::Instant::now();
     let (r, log) = run_dev(&c, f, &args, 100_000_000, vec![], 5_000_000).unwrap();
     let r = r.unwrap();
@@ -324,7 +324,7 @@ fn run_all(ctx: &mut Ctx) {
                     if !fname(f).starts_with("test::") {
                         continue;
                     }
-                    let Some(inputs) = input_vectors(f, true, 3, max_vec) else { continue };
+                    let Some(inputs) = input_vectors(&prog, f, true, 3, max_vec) else { continue };
                     // results that hold addresses (arrays, boxes, dicts) or the prover-chosen random EC state are
                     // not observable values: a relocated segment legitimately changes them
                     let comparable = f.signature.ret_types.iter().all(|t| {
@@ -363,12 +363,12 @@ fn run_all(ctx: &mut Ctx) {
                                 }
                             }
                             for (alt_name, alt) in m {
-                                let case = || json!({"program": name, "function": fname(f), "args": felts_str(args), "occurrence": i, "hint": kind, "honest": mr_json(hv), "alternative": alt_name, "values": mr_json(&alt), "source": code});
+                                let case = || json!({"program": name, "function": fname(f), "args": args_str(args), "occurrence": i, "hint": kind, "honest": mr_json(hv), "alternative": alt_name, "values": mr_json(&alt), "source": code});
                                 if !ctx.sub(case) {
                                     continue;
                                 }
                                 ctx.count("evaluations", 1);
-                                ctx.distinct(&(name.as_str(), fname(f), args.iter().map(|x| x.to_bytes_be()).collect::<Vec<_>>(), i, alt_name.as_str()));
+                                ctx.distinct(&(name.as_str(), fname(f), args_str(args), i, alt_name.as_str()));
                                 let r = guarded(|| run_dev(&c, f, args, GAS, vec![(i, alt.clone())], step_cap));
                                 match r {
                                     Err((loc, msg)) => {
@@ -403,7 +403,7 @@ fn run_all(ctx: &mut Ctx) {
                             }
                         }
                         if !log.is_empty() {
-                            ctx.sample(|| json!({"program": name, "function": fname(f), "args": felts_str(args), "hint_occurrences": log.iter().map(|(k, v)| json!({"hint": k, "honest": mr_json(v)})).collect::<Vec<_>>()}));
+                            ctx.sample(|| json!({"program": name, "function": fname(f), "args": args_str(args), "hint_occurrences": log.iter().map(|(k, v)| json!({"hint": k, "honest": mr_json(v)})).collect::<Vec<_>>()}));
                         }
                     }
                 }
